@@ -42,7 +42,17 @@ EXPLANATION = (
     "is a frozen copy (single definition dominating all uses, its sources not written afterwards) is replaced by its "
     "source, and a tested temporary is replaced by the value it holds when nothing that value depends on is written "
     "between its definition and the test. A condition or bound the rules cannot read (opaque memory, unrelatable local) "
-    "gives no verdict instead of an alarm.")
+    "gives no verdict instead of an alarm. "
+    "A counted loop may contain forward jumps of its variable (`i |= 7; continue;`): recognised when nothing but the loop's "
+    "own +1 follows the jump in that iteration and f(x) >= x over the whole loop range; statements then still see values inside "
+    "the range, and for the bitmap walk C20.R4 decides by exhaustive folding (every accepted length x every bit index x every "
+    "value of the octets the guards of the jump read) that the bit of every index left out is clear -- a jump that can leave "
+    "out a set bit is reported with the bitmap that shows it. When several conditions over the bitmap dominate the output store "
+    "(`rest != 0` and `rest & 1`), or one in a shape that is not `octet & (1 << k)`, what they test together is decided the same "
+    "way: they must hold exactly when bit i&7 of octet len-1-(i>>3) is set. In trx_if_cmd_setfh the proof that a pair precedes "
+    "the terminator store does not depend on how the allocation is walked (index, pointer): the loop condition is taken at loop "
+    "entry (locals replaced by their unique reaching definitions) and must be a linear comparison in the allocation length that "
+    "holds for every length >= 1.")
 ASSUMPTIONS = [
     "clang 14 parses the sliced function exactly as the layer23 build would (prelude models only declarations: stdint.h, EINVAL sign, struct gsm_sysinfo_freq {uint8_t mask;}, FREQ_TYPE_* values and array extents read from sysinfo.h, LOGP reduced to the evaluation of its value arguments)",
     "int is 32 bit: no counter in the function exceeds 2040, so machine arithmetic coincides with integer arithmetic",
@@ -50,6 +60,8 @@ ASSUMPTIONS = [
     "message parsers that call the decoder: their length parameter is the number of octets readable at the message pointer and the message struct is packed (sizeof(*msg) is the offset of its trailing data[]), so `remaining` starts as the exact count of octets at the cursor (C20.R6 checks the initialisation shape, the paired advances and the guards)",
     "the callers are parsed as function slices behind synthesised declarations (K&R prototypes for callees, `extern const int` for upper-case constants, structs reduced to the members used, real scalar types where the struct is found in the tree); only literals, the function's own locals and guards over them are interpreted; upper-case function-like macros (OSMO_MIN, LOGP) neither change control flow nor assign to locals; callees do not modify the received message between a guard and the call",
     "snprintf returns the untruncated length (C99) and never writes more than its size argument",
+    "the bitmap is not modified while it is decoded (const parameter, no store through it, out-parameters do not alias it), so a condition on an octet tested before a forward jump of the walk still holds for the indices the jump leaves out",
+    "trx_if_cmd_setfh: cmdp->ma points to an array of cmdp->ma_len elements, so `cmdp->ma + cmdp->ma_len` is a valid one-past-the-end pointer and differs from cmdp->ma exactly when the length is not 0; the length counts array elements, so linear arithmetic on it does not wrap",
     "a function the decoder calls that has a definition in sysinfo.c is that definition (no other translation unit overrides it); integer conversions at its parameters / result are value preserving unless they narrow to a type smaller than int (then the call is not inlined)",
 ]
 
@@ -963,20 +975,14 @@ class FM:
                 continue
             ub = self.upper_bounds(ats, var)
             ws = [w for w in self.writes.get(var, []) if w.node.id in region]
-            if not ub or len(ws) != 1:
+            if not ub or not ws:
                 continue
-            w = ws[0]
-            step = w.delta if w.how == "inc" else (self.tu.fold(w.val) if w.how == "aug+=" else None)
-            if w.how == "assign":
-                t = self.lower(w.val)
-                co, k = X.linear(t)
-                if co == {var: 1}:
-                    step = k
-            if step != 1:
+            # the unit step: +1, executed exactly once per iteration
+            units = [w for w in ws if self._step(w, var) == 1 and not (
+                c.id in self.reach_succ(c, skip=[w.node], label=True) or w.node.id in self.reach_succ(w.node, skip=[c]))]
+            if len(units) != 1:
                 continue
-            # executed exactly once per iteration
-            if c.id in self.reach_succ(c, skip=[w.node], label=True) or w.node.id in self.reach_succ(w.node, skip=[c]):
-                continue
+            w = units[0]
             defs = self.reaching_defs(var, c, outside=region)
             vals = set()
             for d in defs:
@@ -986,13 +992,99 @@ class FM:
             for (b, _) in ub:
                 if not free_vars(b) <= self.invariant:
                     raise AnalysisError("loop bound %s of `%s` is not invariant" % (X.show(b), var))
-            cands.append({"stmt": stmt, "cond": c, "var": var, "init": vals.pop(), "bounds": [b for (b, _) in ub],
-                          "inc": w.node, "region": region})
+            li = {"stmt": stmt, "cond": c, "var": var, "init": vals.pop(), "bounds": [b for (b, _) in ub],
+                  "inc": w.node, "region": region, "skips": []}
+            # every other write of the variable inside the loop must be a forward jump (see skip_write)
+            for k in ws:
+                if k is not w:
+                    li["skips"].append(self.skip_write(li, k, ws))
+            if None in li["skips"] or not self.skips_forward(li):
+                continue
+            cands.append(li)
         if len(cands) != 1:
             raise AnalysisError("loop at line %s is not a recognisable counted loop (%d induction candidates)" % (
                 self.line(stmt), len(cands)))
         self._gcache[key] = cands[0]
         return cands[0]
+
+    def _step(self, w, var):
+        """constant k of a write `var = var + k` (None otherwise)"""
+        if w.how == "inc":
+            return w.delta
+        if w.how == "aug+=":
+            return self.tu.fold(w.val)
+        if w.how == "assign":
+            try:
+                co, k = X.linear(self.lower(w.val))
+            except AnalysisError:
+                return None
+            if co == {var: 1}:
+                return k
+        return None
+
+    def skip_write(self, li, k, ws):
+        """A second write `var = f(var)` of the induction variable inside a counted loop is a *forward jump*: the
+        iteration that executes it does nothing else afterwards (only the loop's own +1 follows), so the walk goes
+        on with index f(var)+1 and the indices var+1 .. f(var) are not visited.  Recognised when
+          * f is a side-effect free function of the variable and of invariants (`v |= c`, `v += c`, `v = e(v)`),
+          * the jump is executed at most once per iteration and no write of the variable precedes it in the
+            iteration (the guards of the jump speak about the index the iteration started with),
+          * every statement between the jump and the loop's increment is inert: it writes nothing, calls nothing,
+            branches nowhere and does not read the variable.
+        -> {"node", "term", "ast"} | None.  Whether the jump may go backwards is decided by skips_forward();
+        what the skipped indices mean for the property is the business of the rule that uses the loop (li["skips"])."""
+        var, c, region = li["var"], li["cond"], li["region"]
+        try:
+            if k.how == "assign":
+                ft = self.lower(k.val)
+            elif k.how == "aug|=":
+                ft = X.bor(X.V(var), self.lower(k.val))
+            elif k.how == "aug+=":
+                ft = X.add(X.V(var), self.lower(k.val))
+            else:
+                return None
+        except AnalysisError:
+            return None
+        if not self._readonly(k.val) or not free_vars(ft) <= self.invariant | {var}:
+            return None
+        if k.node is c or any(k.node.id in self.reach_succ(w2.node, skip=[c]) for w2 in ws):
+            return None
+        after = self.reach_succ(k.node, skip=[c]) - {li["inc"].id}
+        busy = {w.node.id for wl in self.writes.values() for w in wl} | {w.node.id for w in self.memwrites} | \
+            {n.id for (n, _) in self.calls} | {n.id for (n, _) in self.uses.get(var, [])}
+        for i in after:
+            n = self.g.nodes[i]
+            if i not in region or n.kind != "stmt" or i in busy:
+                return None
+        if li["inc"].id not in self.reach_succ(k.node, skip=[c]):
+            return None
+        return {"node": k.node, "term": ft, "ast": k.ast}
+
+    def skips_forward(self, li):
+        """no forward jump of the loop moves the variable backwards: f(x) >= x for every x the loop test admits
+        (folded over the finite domain: the uint8_t parameter in the bounds x the loop range).  With the +1 executed
+        once per iteration the variable then grows strictly, so every statement before the jump / the increment sees
+        a value in init .. bound-1 and the loop runs at most bound-init times."""
+        if not li["skips"]:
+            return True
+        pv = set()
+        for t in li["bounds"] + [sk["term"] for sk in li["skips"]]:
+            pv |= free_vars(t) - {li["var"]}
+        if len(pv) > 1 or any(" ".join(self.ptype.get(p, "").split()) != "uint8_t" for p in pv):
+            return False
+        p = pv.pop() if pv else None
+        for sk in li["skips"]:
+            for v in (self.domain(sk["node"], p) if p else [0]):
+                vals = {p: v} if p else {}
+                try:
+                    hi = self.loop_hi(li, vals)
+                    for x in range(li["init"], hi):
+                        vals[li["var"]] = x
+                        if ev(sk["term"], vals) < x:
+                            return False
+                except (Unknown, AnalysisError):
+                    return False
+        return True
 
     def natural_loop(self, c):
         """ids of the natural loop of header c (back edges = predecessors dominated by c)"""
@@ -1935,6 +2027,9 @@ def r4_order(L, D):
         raise AnalysisError("%s(): the scratch store is not inside exactly one loop" % FN)
     li = fm.loop(loops[0])
     v = li["var"]
+    if li["skips"]:
+        raise AnalysisError("%s(): the candidate loop jumps over candidates (`%s`): which candidates are left out is not modelled" % (
+            FN, ctext(li["skips"][0]["ast"])[:40]))
     if not fm.pre_increment(li, S):
         raise AnalysisError("%s(): `%s` is incremented before the scratch store" % (FN, v))
     his = {fm.loop_hi(li, {D.P_LEN: x}) for x in fm.domain(S, D.P_LEN)} or {li["init"]}
@@ -2006,33 +2101,53 @@ def r4_order(L, D):
                 break
         L.ob(R, F_SYS, FN, "the walk covers exactly the bit indices 0 .. 8*%s-1 in ascending order" % D.P_LEN,
              "bits 0..8*%s-1" % D.P_LEN, badr or "bits 0..8*%s-1" % D.P_LEN, badr is None, fm.line(l2["stmt"]))
-        tests, unread = [], []
+        matoms, unread = [], []
         for (t, p, c, l) in fm.atoms(H):
             if X.V(D.P_MA) not in subterms(t):
                 if not free_vars(t) <= {b, cnt, D.P_LEN, D.P_SI4} | fm.invariant:
                     unread.append(t)
                 continue
-            sh = bit_shape(t, D.P_MA)
-            if sh is None:
-                raise AnalysisError("%s(): bitmap test `%s` has a shape the rule cannot classify" % (FN, X.show(t)))
-            tests.append(sh + (p,))
-        if not tests and unread:
+            matoms.append((t, p))
+        if not matoms and unread:
             raise AnalysisError("%s(): the condition `%s` under which an entry is emitted cannot be classified" % (FN, X.show(unread[0])[:80]))
-        L.ob(R, F_SYS, FN, "an entry is emitted only under exactly one test of a bitmap bit, taken when the bit is set",
-             "1 test, bit set", "%d tests%s" % (len(tests), "" if all(x[2] for x in tests) else ", taken when the bit is clear"),
-             len(tests) == 1 and tests[0][2], fm.line(hw.ast))
-        for (bt, kt, p) in tests[:1]:
-            bad = None
-            try:
-                for pt in fm.points(H, D.P_LEN, free_vars(bt) | free_vars(kt) | {D.P_LEN, b}):
-                    n, i = pt[D.P_LEN], pt[b]
-                    if ev(bt, pt) != n - 1 - (i >> 3) or ev(kt, pt) != (i & 7):
-                        bad = "bit index %d of a %d-octet bitmap is read from octet %d, bit %d" % (i, n, ev(bt, pt), ev(kt, pt))
-                        break
-            except Unknown as u:
-                raise AnalysisError("%s(): bitmap test depends on `%s`" % (FN, u))
-            L.ob(R, F_SYS, FN, "bit index i of the bitmap is octet %s-1-(i>>3), bit i&7 (TS 44.018 10.5.2.21: LSB of the last octet first)" % D.P_LEN,
-                 "octet %s-1-(i>>3), bit i&7" % D.P_LEN, bad or "octet %s-1-(i>>3), bit i&7" % D.P_LEN, bad is None, fm.line(hw.ast))
+        K1 = "an entry is emitted only under exactly one test of a bitmap bit, taken when the bit is set"
+        K2 = "bit index i of the bitmap is octet %s-1-(i>>3), bit i&7 (TS 44.018 10.5.2.21: LSB of the last octet first)" % D.P_LEN
+        W2 = "octet %s-1-(i>>3), bit i&7" % D.P_LEN
+        shapes = [bit_shape(t, D.P_MA) for (t, p) in matoms]
+        if len(matoms) <= 1 and None not in shapes:
+            tests = [sh + (p,) for sh, (t, p) in zip(shapes, matoms)]
+            L.ob(R, F_SYS, FN, K1,
+                 "1 test, bit set", "%d tests%s" % (len(tests), "" if all(x[2] for x in tests) else ", taken when the bit is clear"),
+                 len(tests) == 1 and tests[0][2], fm.line(hw.ast))
+            for (bt, kt, p) in tests[:1]:
+                bad = None
+                try:
+                    for pt in fm.points(H, D.P_LEN, free_vars(bt) | free_vars(kt) | {D.P_LEN, b}):
+                        n, i = pt[D.P_LEN], pt[b]
+                        if ev(bt, pt) != n - 1 - (i >> 3) or ev(kt, pt) != (i & 7):
+                            bad = "bit index %d of a %d-octet bitmap is read from octet %d, bit %d" % (i, n, ev(bt, pt), ev(kt, pt))
+                            break
+                except Unknown as u:
+                    raise AnalysisError("%s(): bitmap test depends on `%s`" % (FN, u))
+                L.ob(R, F_SYS, FN, K2, W2, bad or W2, bad is None, fm.line(hw.ast))
+        else:
+            # several conditions over the bitmap dominate the store (`rest != 0` and `rest & 1`), or one in a shape that is
+            # not `octet & (1 << k)`: what they test together is decided by folding them over the finite domain
+            # (every accepted length x every bit index x every value of the octets they read)
+            bad, n = emit_fold(fm, D, H, b, matoms)
+            L.ob(R, F_SYS, FN, K1, "1 test, bit set",
+                 "%d conditions over the bitmap, together %s" % (len(matoms), "true exactly when one bit is set" if bad is None else "not the test of one bit"),
+                 bad is None, fm.line(hw.ast))
+            L.ob(R, F_SYS, FN, K2, W2, bad or W2, bad is None, fm.line(hw.ast))
+        # ---- forward jumps of the walk: only indices whose bit is clear may be left out
+        for sk in l2["skips"]:
+            okj, txt, exact = skip_fold(fm, D, l2, sk)
+            if not okj and not exact:
+                raise AnalysisError("%s(): the walk jumps over bit indices (`%s`) under a condition the rule cannot read completely" % (
+                    FN, ctext(sk["ast"])[:40]))
+            L.ob(R, F_SYS, FN, "a bit index the walk jumps over (`%s`) is never flagged: under every bitmap that takes the jump the bits of "
+                 "the indices left out are clear, so no flagged channel is dropped and nothing is emitted out of order" % ctext(sk["ast"])[:40],
+                 "every skipped bit is clear", txt, okj, fm.line(sk["ast"]))
         val = fm.lower(hw.val)
         L.ob(R, F_SYS, FN, "the emitted channel is the list entry with the index of the tested bit", "%s[%s]" % (arr, b), X.show(val),
              val == ("idx", X.V(arr), X.V(b)), fm.line(hw.ast))
@@ -2088,6 +2203,132 @@ def r4_order(L, D):
         L.ob(R, F_SYS, FN, "write to the frequency table `%s` only maintains FREQ_TYPE_HOPP and only for SI4" % ctext(fw.ast)[:60],
              "|= / &= ~ FREQ_TYPE_HOPP under `%s`" % D.P_SI4,
              "%s%s" % (ctext(fw.ast)[:60], "" if under else " (not under `%s`)" % D.P_SI4), under and only_hopp, fm.line(fw.ast))
+
+
+def abstract_reads(t, ma, vals):
+    """replace every read `ma[B]` in t by the variable `@k`, k the value of B at the point `vals`
+    -> (term, {k}); Unknown if an octet index is not a function of the point"""
+    ks = set()
+
+    def rec(x):
+        if x[0] == "idx" and x[1] == X.V(ma):
+            k = ev(x[2], vals)
+            ks.add(k)
+            return X.V("@%d" % k)
+        if x[0] in ("c", "v"):
+            return x
+        return tuple(rec(y) if isinstance(y, tuple) else y for y in x)
+    return rec(t), ks
+
+
+def ma_models(D, atoms, vals, cache):
+    """the bitmaps under which every atom holds at the point `vals`, restricted to the octets the atoms read:
+    (sorted octet indices, [tuple of octet values]).  Exhaustive over 0..255 per octet.
+    Unknown: an atom reads something else than the bitmap / too many octets / an octet outside the bitmap."""
+    ts, ks = [], set()
+    for (t, p) in atoms:
+        t2, k2 = abstract_reads(t, D.P_MA, vals)
+        ts.append((t2, p))
+        ks |= k2
+    ks = sorted(ks)
+    if len(ks) > 2:
+        raise Unknown("more than two bitmap octets in one condition")
+    if any(not 0 <= k < vals[D.P_LEN] for k in ks):
+        raise Unknown("octet outside the bitmap")
+    names = ["@%d" % k for k in ks]
+    # the atoms depend on the point only through the variables they mention
+    fv = set()
+    for (t2, _) in ts:
+        fv |= free_vars(t2)
+    key = (tuple(ts), tuple(sorted((k, v) for k, v in vals.items() if k in fv)))
+    if key not in cache:
+        out = []
+        combos = [()]
+        for _ in ks:
+            combos = [c + (o,) for c in combos for o in range(256)]
+        for combo in combos:
+            env = dict(vals)
+            env.update(zip(names, combo))
+            if all(bool(ev(t2, env)) == p for (t2, p) in ts):
+                out.append(combo)
+        cache[key] = out
+    return ks, cache[key]
+
+
+def fmt_bitmap(n, octets):
+    return "%d-octet bitmap with %s" % (n, ", ".join("octet %d = 0x%02x" % kv for kv in sorted(octets.items())) or "any octets")
+
+
+def emit_fold(fm, D, H, b, matoms):
+    """C20.R4, clause "contains exactly the cell-allocation channels whose bit is set": the conditions over the
+    bitmap that dominate the output store hold, together, exactly when bit i&7 of octet len-1-(i>>3) is set --
+    for every accepted length, every bit index of the walk and every value of the octets they read.
+    -> (counterexample text | None, number of points)"""
+    cache, n = {}, 0
+    try:
+        for pt in fm.points(H, D.P_LEN, {D.P_LEN, b}):
+            v, i = pt[D.P_LEN], pt[b]
+            o, bit = v - 1 - (i >> 3), 1 << (i & 7)
+            ks, models = ma_models(D, matoms, pt, cache)
+            n += 1
+            if o not in ks:
+                if models:
+                    return "bit index %d of a %s: an entry is emitted although octet %d (bit %d clear) is not even read" % (
+                        i, fmt_bitmap(v, dict(zip(ks, models[0]))), o, i & 7), n
+                return "bit index %d of a %d-octet bitmap: no entry is ever emitted" % (i, v), n
+            at = ks.index(o)
+            wrong = [m for m in models if not m[at] & bit]
+            if wrong:
+                return "bit index %d of a %s: an entry is emitted although bit %d of octet %d is clear" % (
+                    i, fmt_bitmap(v, dict(zip(ks, wrong[0]))), i & 7, o), n
+            if len(models) != 128 * 256 ** (len(ks) - 1):
+                return "bit index %d of a %d-octet bitmap: bit %d of octet %d is set but the entry is emitted for %d of the %d bitmaps only" % (
+                    i, v, i & 7, o, len(models), 128 * 256 ** (len(ks) - 1)), n
+    except Unknown as u:
+        raise AnalysisError("%s(): the conditions over the bitmap under which an entry is emitted cannot be folded (%s)" % (FN, u))
+    return None, n
+
+
+def skip_fold(fm, D, li, sk):
+    """A forward jump of the bitmap walk (FM.skip_write) leaves out the indices x .. f(x) of the iteration that takes
+    it (nothing but the loop increment follows the jump).  Decided for every accepted length, every index x of the
+    walk and every value of the octets the guards of the jump read: whenever the guards hold, the bit of every index
+    left out is clear.  Guards that do not speak about the bitmap / the index are dropped (the jump is then assumed
+    to be taken more often; a counterexample found that way is not exact).
+    -> (ok, text, exact)"""
+    b = li["var"]
+    inside = [(a[0], a[1]) for a in fm.atoms(sk["node"]) if a[2].id in li["region"] and a[2] is not li["cond"]]
+    cache, n, exact = {}, 0, True
+    for v in fm.domain(sk["node"], D.P_LEN):
+        hi = fm.loop_hi(li, {D.P_LEN: v})
+        for x in range(li["init"], hi):
+            vals = {D.P_LEN: v, b: x}
+            use = []
+            for a in inside:
+                try:
+                    ma_models(D, [a], vals, cache)
+                    use.append(a)
+                except Unknown:
+                    exact = False
+            try:
+                ks, models = ma_models(D, use, vals, cache)
+                last = min(ev(sk["term"], vals), hi - 1)
+            except Unknown:
+                return False, "the guards of the jump cannot be folded", False
+            n += 1
+            for j in range(x, last + 1):
+                o, bit = v - 1 - (j >> 3), 1 << (j & 7)
+                if o < 0:
+                    continue
+                if o in ks:
+                    at = ks.index(o)
+                    bad = [dict(zip(ks, m)) for m in models if m[at] & bit]
+                else:
+                    bad = [dict(list(zip(ks, m)) + [(o, bit)]) for m in models[:1]]
+                if bad:
+                    return False, "%s: at bit index %d the walk jumps to index %d, leaving out index %d whose bit is set (flagged channel dropped)" % (
+                        fmt_bitmap(v, bad[0]), x, last + 1, j), exact
+    return True, "every skipped bit is clear (%d index/length pairs x all octet values)" % n, exact
 
 
 def cap_tests(ats, is_counter, params):
@@ -2799,6 +3040,81 @@ def fmt_min_len(lit):
     return n
 
 
+def entry_term(fm, t, at, outside=None, depth=0):
+    """term t, read at CFG node `at`, with every local replaced by the value it holds there: the local has exactly
+    one reaching definition `x = e` (coming from outside the loop `outside` when `at` is its header), e is free of
+    side effects, and e is taken -- recursively -- at its own statement.  Locals that cannot be resolved stay."""
+    if t[0] == "c":
+        return t
+    if t[0] == "v":
+        x = t[1]
+        if depth > 6 or x not in fm.locals or x in fm.addr or x in fm.dups:
+            return t
+        defs = fm.reaching_defs(x, at, outside=outside)
+        if len(defs) != 1 or defs[0] == "undef" or defs[0].how not in ("init", "assign") or not fm._readonly(defs[0].val):
+            return t
+        try:
+            e = fm.lower(defs[0].val)
+        except AnalysisError:
+            return t
+        if "<mem>" in free_vars(e):
+            return t
+        return entry_term(fm, e, defs[0].node, None, depth + 1)
+    return tuple(entry_term(fm, x, at, outside, depth) if isinstance(x, tuple) else x for x in t)
+
+
+def entry_test(fm, c0, region, MLEN):
+    """Does the first evaluation of the loop condition hold for every allocation length >= 1?
+    The condition's locals are replaced by their values at loop entry (entry_term); each conjunct must then be
+    linear in the length: `a != b` with a-b = m*N (m != 0), `a < b` with b-a = m*N + k, or N itself.
+    Decided for all N >= 1 on the linear form (machine arithmetic = integer arithmetic: N counts array elements).
+    -> (holds, text); AnalysisError when a conjunct is not such a comparison."""
+    ats = fm.edge_atoms(c0, True)
+    if not ats:
+        raise AnalysisError("loop over the allocation has no condition")
+    N = MLEN
+    for (t, p) in ats:
+        t = entry_term(fm, t, c0, region)
+        t, p = fm.norm_term(t, p)
+        what = X.show(t)[:60]
+        if free_vars(t) & (set(fm.locals) | {"<mem>"}):
+            # a local whose value at loop entry is not a function of the call's constants (or a value read from memory)
+            raise AnalysisError("first test `%s` of the loop over the allocation cannot be decided" % what)
+        if t == X.V(N):
+            if not p:
+                return False, "loop runs only for an empty allocation"
+            continue
+        if t[0] != "cmp":
+            raise AnalysisError("first test `%s` of the loop over the allocation cannot be decided" % what)
+        try:
+            co, k = X.linear(X.sub(t[3], t[2]))          # b - a
+        except AnalysisError:
+            co, k = None, None
+        if co is None or set(co) - {N}:
+            raise AnalysisError("first test `%s` of the loop over the allocation cannot be decided" % what)
+        m = co.get(N, 0)
+        if t[1] == "==":
+            # p: a == b for all N >= 1; not p: a != b for all N >= 1  (m*N + k != 0)
+            if p:
+                hold = m == 0 and k == 0
+                cex = 1
+            else:
+                hold = not (m != 0 and (-k) % m == 0 and (-k) // m >= 1) and not (m == 0 and k == 0)
+                cex = (-k) // m if m else 1
+        else:
+            # a < b  <=>  m*N + k > 0;   !(a < b)  <=>  m*N + k <= 0
+            if p:
+                hold = m >= 0 and m + k > 0
+                cex = 1 if m + k <= 0 else None
+            else:
+                hold = m <= 0 and m + k <= 0
+                cex = 1 if m + k > 0 else None
+        if not hold:
+            return False, "first loop test `%s` fails for an allocation of %s entries (no pair is appended)" % (
+                what, cex if cex is not None else "many")
+    return True, "the first loop test holds for every non-empty allocation"
+
+
 def r5_setfh(L):
     R = "C20.R5"
     fn = "trx_if_cmd_setfh"
@@ -2923,21 +3239,25 @@ def r5_setfh(L):
                 off = t[2][1]
             if off is None:
                 raise AnalysisError("%s(): store `%s` through the cursor has an unclassifiable target" % (fn, ctext(w.ast)[:40]))
-            # at least one pair was appended before: first loop test is true and every way out of the body advances the cursor
+            # at least one pair was appended before: the first test of the loop holds for every non-empty allocation
+            # (whatever walks the allocation: an index, a pointer, a count-down) and every way from there to the
+            # store advances the cursor
             loops = fm.enclosing_loops(n)
-            ok1 = False
-            why = "snprintf is not inside one counted loop over the allocation"
-            if len(loops) == 1:
-                li = fm.loop(loops[0])
-                c0 = li["cond"]
-                only = len(fm.edge_atoms(c0, True)) == 1 and li["bounds"] == [X.V(MLEN)] and li["init"] == 0
-                nonempty = 0 not in fm.domain(c0, MLEN, dom3)
-                adv = w.node.id not in fm.reach_succ(c0, skip=[U2.node], label=True)
-                after = w.node.id not in li["region"]
-                ok1 = only and nonempty and adv and after
-                why = "loop `%s` in 0..%s-1%s%s%s" % (li["var"], MLEN, "" if nonempty else ", may run zero times (empty allocation not rejected)",
-                                                     "" if adv else ", the store is reachable without advancing the cursor",
-                                                     "" if only and after else ", loop shape not recognised")
+            if len(loops) != 1:
+                raise AnalysisError("%s(): snprintf is inside %d loops (expected the one loop over the allocation)" % (fn, len(loops)))
+            c0 = fm.g.by_ast.get(id(loops[0]))
+            if c0 is None or c0.kind != "cond" or kind(loops[0]) == "DoStmt":
+                raise AnalysisError("%s(): loop shape not supported (line %s)" % (fn, fm.line(loops[0])))
+            region = fm.natural_loop(c0)
+            first, ftxt = entry_test(fm, c0, region, MLEN)
+            nonempty = 0 not in fm.domain(c0, MLEN, dom3)
+            adv = w.node.id not in fm.reach_succ(c0, skip=[U2.node], label=True)
+            after = w.node.id not in region
+            if not after:
+                raise AnalysisError("%s(): the store `%s` through the cursor is inside the loop (unclassifiable)" % (fn, ctext(w.ast)[:40]))
+            ok1 = first and nonempty and adv
+            why = "%s%s%s" % (ftxt, "" if nonempty else ", the loop is reachable with an empty allocation (not rejected)",
+                              "" if adv else ", the store is reachable without advancing the cursor")
             lo_ok = mlen is not None and mlen + off >= 0
             hi_ok = Z0 + off < E
             L.ob(R, F_TRX, fn, "terminator store `%s` stays inside `%s[%d]` (at least one pair precedes it)" % (ctext(w.ast), ARR, E),
